@@ -13,5 +13,5 @@ one() {
   else echo "$id $prop MISSED $(echo "$r" | tail -1 | cut -c1-120)"; fi
 }
 export -f one
-printf '%s\n' $IDS | xargs -P6 -I{} bash -c 'one {}' | sort > $OUT.tmp
+printf '%s\n' $IDS | xargs -P7 -I{} bash -c 'one {}' | tee $OUT.partial | sort > $OUT.tmp
 mv $OUT.tmp $OUT; cat $OUT
